@@ -87,12 +87,20 @@ fn get_g_base(extension_degree: ExtensionDegree) -> (Vec<RistrettoPoint>, Vec<Co
 #[allow(clippy::arithmetic_side_effects)]
 fn ristretto_masking_basepoints() -> &'static [RistrettoPoint; ExtensionDegree::COUNT] {
     static INSTANCE: OnceCell<[RistrettoPoint; ExtensionDegree::COUNT]> = OnceCell::new();
+    #[cfg(feature = "verif-hooks")]
+    crate::verif_hooks::emit(crate::verif_hooks::Event::CellEnter(0));
     INSTANCE.get_or_init(|| {
+        #[cfg(feature = "verif-hooks")]
+        crate::verif_hooks::emit(crate::verif_hooks::Event::InitBegin(0));
         let mut arr = [RistrettoPoint::identity(); ExtensionDegree::COUNT];
         for (i, point) in (ExtensionDegree::MINIMUM..).zip(arr.iter_mut()) {
+            #[cfg(feature = "verif-hooks")]
+            crate::verif_hooks::emit(crate::verif_hooks::Event::InitElem(0, i));
             let label = "RISTRETTO_MASKING_BASEPOINT_".to_owned() + &i.to_string();
             *point = RistrettoPoint::hash_from_bytes_sha3_512(label.as_bytes());
         }
+        #[cfg(feature = "verif-hooks")]
+        crate::verif_hooks::emit(crate::verif_hooks::Event::InitEnd(0));
 
         arr
     })
@@ -101,11 +109,19 @@ fn ristretto_masking_basepoints() -> &'static [RistrettoPoint; ExtensionDegree::
 /// A static array of compressed pre-generated points
 fn ristretto_compressed_masking_basepoints() -> &'static [CompressedRistretto; ExtensionDegree::COUNT] {
     static INSTANCE: OnceCell<[CompressedRistretto; ExtensionDegree::COUNT]> = OnceCell::new();
+    #[cfg(feature = "verif-hooks")]
+    crate::verif_hooks::emit(crate::verif_hooks::Event::CellEnter(1));
     INSTANCE.get_or_init(|| {
+        #[cfg(feature = "verif-hooks")]
+        crate::verif_hooks::emit(crate::verif_hooks::Event::InitBegin(1));
         let mut arr = [CompressedRistretto::identity(); ExtensionDegree::COUNT];
         for (i, point) in ristretto_masking_basepoints().iter().enumerate() {
+            #[cfg(feature = "verif-hooks")]
+            crate::verif_hooks::emit(crate::verif_hooks::Event::InitElem(1, i));
             arr[i] = point.compress();
         }
+        #[cfg(feature = "verif-hooks")]
+        crate::verif_hooks::emit(crate::verif_hooks::Event::InitEnd(1));
 
         arr
     })
